@@ -11,7 +11,8 @@ irispie.disaggregate call the method on a copy, so they pass through the same wr
                 series' span included) is missing unless discard_missing; first/last: first/last member (first/last
                 non-missing one under discard_missing); min/max/geometric_mean: decided on complete groups or under
                 discard_missing only; select: python indexing into the member list, before discarding; callables
-                (documented as admissible `method`): the same callable applied to the member values.
+                (documented as admissible `method`): the same callable applied to the member values, decided on
+                complete groups or under discard_missing only.
   disaggregate  wrapper on Series.disaggregate, methods flat/first/middle/last: every low period of the input span
                 against the values found at its member periods (exact), everything else missing. "middle" with an
                 even number of members: either central member accepted (docstring does not pin it down).
@@ -32,8 +33,9 @@ Not decided (never a violation):
   * WEEKLY: the enum member exists but there is no weekly period class, a weekly series cannot be built.
   * empty series, integer frequency, same-frequency no-op calls, target frequency on the wrong side (error paths).
   * min / max / geometric_mean of a group with a missing member without discard_missing (NaN ordering).
-  * a callable `method` on low periods that contain no period of the series' span (the implementation pads to whole
-    years and calls it on all-NaN groups; e.g. a counting callable returns the group size there).
+  * a callable `method` on a group with a missing member without discard_missing, and on low periods that contain no
+    period of the series' span (the implementation pads to whole years and calls it on NaN-padded groups, e.g. a
+    counting callable returns the group size there; handing it only the existing observations would be as defensible).
   * `remove_missing` (legacy, "do not include in the docstring").
   * which of the two central members "middle" uses when the number of members is even.
   * arip: rho / c when fewer than two low observations remain (documentation says "average rate of change ... in the
@@ -268,12 +270,14 @@ def _pre_aggregate(c, self, sig, args, kwargs):
         return None
     if select is not None:
         try:
-            select = [int(i) for i in select]
-            if not all(isinstance(i, (int, np.integer)) and not isinstance(i, bool) for i in a.get("select")):
-                raise TypeError
+            raw = list(select)
+            ok = all(isinstance(i, (int, np.integer)) and not isinstance(i, (bool, np.bool_)) for i in raw)
         except Exception:
+            ok = False
+        if not ok:
             c.inconc("aggregate:outside-quantifier(select)")
             return None
+        select = [int(i) for i in raw]
     if discard not in (None, True, False):
         c.inconc("aggregate:outside-quantifier(discard_missing)")
         return None
@@ -281,7 +285,8 @@ def _pre_aggregate(c, self, sig, args, kwargs):
     case = None
     if name != "call:unknown":
         case = {"kind": "agg", "form": "method", "freq": src, "start": snap["start"], "values": snap["rows"], "target": tgt,
-                "method": name, "discard_missing": bool(discard), "select": select}
+                "method": None if method is None else name, "discard_missing": None if discard is None else bool(discard),
+                "select": select}
     return {"snap": snap, "src": src, "tgt": tgt, "method": method if callable(method) else name, "name": name,
             "discard": bool(discard), "select": select, "case": case}
 
@@ -331,10 +336,12 @@ def _post_aggregate(c, self, pre, raised):
         p, j, want, have = problems[0]
         mem = cal.members(tgt, p, src)
         vals = [mo.get(snap["data"], h, j) for h in mem]
+        n_missing = sum(1 for v in vals if math.isnan(v))
+        shown = vals if len(vals) <= 12 else vals[:6] + ["..."] + vals[-5:]
         kind = "daily" if src == cal.DAILY else "regular"
         c.violation(f"aggregate:{kind}:{mkey}:wrong-value",
                     f"aggregate {L[src]}->{L[tgt]} method={name} discard_missing={pre['discard']} select={pre['select']}: low period "
-                    f"{cal.label_from_ordinal(tgt, p)} variant {j}: got {have!r}, members {rt.short(vals, 300)} give {want!r} "
+                    f"{cal.label_from_ordinal(tgt, p)} variant {j}: got {have!r}, its {len(vals)} members ({n_missing} missing) {rt.short(shown, 300)} give {want!r} "
                     f"({len(problems)} cells differ)", case=pre["case"])
 
 
@@ -348,6 +355,7 @@ def _pre_disaggregate(c, self, sig, args, kwargs):
     snap = read_series(self)
     tgt = _freq_int(a.get("target_freq"))
     method = a.get("method", "flat")
+    method_given = "method" in a
     src = snap["freq"]
     if src is None:
         c.inconc("disaggregate:empty-series-not-decided")
@@ -363,7 +371,7 @@ def _pre_disaggregate(c, self, sig, args, kwargs):
         return None
     pre = {"snap": snap, "src": src, "tgt": tgt, "method": method}
     case = {"kind": "disagg", "form": "method", "freq": src, "start": snap["start"], "values": snap["rows"], "target": tgt,
-            "method": method}
+            "method": method if method_given else None}
     if method != "arip":
         if extra:
             c.inconc("disaggregate:outside-quantifier(unexpected options)")
@@ -403,7 +411,8 @@ def _pre_disaggregate(c, self, sig, args, kwargs):
 
 def _block_model(pre):
     """What placing every low period on a block of (365 // f) days would give -- used ONLY to attribute a mismatch
-    on a DAILY target to the known mechanism (known_findings 'disaggregate:daily-target:wrong-days')."""
+    on a DAILY target to the known mechanism (known_findings 'disaggregate:daily-target:wrong-days'); a mismatch
+    of any other shape keeps the generic key and surfaces as an unlisted violation."""
     snap, src, method = pre["snap"], pre["src"], pre["method"]
     sp = mo.span_of(snap["data"])
     k = 365 // src
@@ -428,7 +437,7 @@ def _post_disaggregate(c, self, pre, raised):
     hi_first = cal.members(src, sp[0], tgt)[0]
     hi_last = cal.members(src, sp[1], tgt)[-1]
     interior_missing = any(math.isnan(mo.get(snap["data"], p, j)) for p in range(sp[0], sp[1] + 1) for j in range(nv))
-    _, seg = (cal.label_from_ordinal(src, sp[0]) + (0,))[:2] if src != cal.DAILY else (0, 0)
+    seg = cal.label_from_ordinal(src, sp[0])[1]
     key = ("dis", src, tgt, method, seg, cal.has_leap_day(tgt, hi_first, hi_last), interior_missing, nv, min(n_in, 3))
     op = f"{L[src]}->{L[tgt]}:{method}"
     c.event("disaggregate", op, key=key, nontrivial=n_in >= 2)
@@ -486,9 +495,9 @@ def _arip_feasible(pre, got, j, lows, sizes, highs, targets):
         return problems, A, b, kinds, y, x
     for kind, resid, scale in ao.feasibility(A, b, kinds, x)[:2]:
         if kind[0] == "agg":
-            problems.append(("constraint-violated", f"low period #{kind[1]} (y={y[kind[1]]!r}): Z x - y = {resid:.3e} (scale {scale:.3e})"))
+            problems.append(("constraint-violated", f"low period #{kind[1]} (y={float(y[kind[1]])!r}): Z x - y = {resid:.3e} (scale {scale:.3e})"))
         else:
-            problems.append(("target-missed", f"high period #{kind[1]} target {targets[kind[1]]!r}: x - target = {resid:.3e}"))
+            problems.append(("target-missed", f"high period #{kind[1]} target {float(targets[kind[1]])!r}: x - target = {resid:.3e}"))
     return problems, A, b, kinds, y, x
 
 
@@ -546,7 +555,7 @@ def _post_arip(c, self, pre, raised):
         per_variant.append((A, b, y, x))
     if problems:
         if tgt == cal.DAILY and _arip_block_explains(pre, got):
-            c.violation("disaggregate:daily-target:wrong-days",
+            c.violation("arip:daily-target:wrong-days",
                         head + f"{problems[0][1]} [result is laid out on blocks of 365//f days: {len(got['rows'])} rows for {len(highs)} calendar days]",
                         case=pre["case"])
         else:
@@ -669,8 +678,8 @@ def _run_agg_case(c, case):
 
 
 def _disagg_kwargs(ir, case):
-    kw = {"method": case["method"]}
-    if case["method"] == "arip":
+    kw = {} if case.get("method") is None else {"method": case["method"]}    # None: rely on the default ("flat")
+    if case.get("method") == "arip":
         form, agg = case["model"]
         kw["model"] = (form, agg if isinstance(agg, str) else tuple(float(v) for v in agg))
         ts = case.get("target_series")
@@ -702,6 +711,12 @@ _ROUNDTRIPS = {
 _ARIP_BACK = {"sum": "sum", "mean": "mean", "avg": "mean", "first": "first", "last": "last"}
 
 
+def _verdict_counter(c):
+    """changes whenever a monitor records a violation or declares a call undecided (optimality-only reasons excluded)"""
+    return (sum(c.violation_counts.values()),
+            sum(n for k, n in c.inconclusive.items() if not k.startswith(("arip:optimality:", "roundtrip:"))))
+
+
 def _run_roundtrip_case(c, case):
     """disaggregate with case['method'] then aggregate back with every matching method; both through the real code"""
     import irispie as ir
@@ -713,24 +728,26 @@ def _run_roundtrip_case(c, case):
                 return
             nv = x0["nv"]
             lo, hi = int(case["freq"]), int(case["target"])
-            method = case["method"]
-            before = sum(c.violation_counts.values())
+            method = case.get("method") or "flat"
+            before = _verdict_counter(c)
             try:
                 d = ir.disaggregate(x, _freq(ir, hi), **_disagg_kwargs(ir, case))
             except Exception:
                 c.inconc("roundtrip:first-step-raised(judged by the disaggregate monitor)")
                 return
-            if sum(c.violation_counts.values()) != before:
-                c.inconc("roundtrip:first-step-already-flagged")
+            if _verdict_counter(c) != before:
+                c.inconc("roundtrip:first-step-already-flagged-or-undecided")
                 return
             only = None
             rtol = 1e-12
+            scale = 0.0
             if method == "arip":
                 agg = case["model"][1]
                 if not isinstance(agg, str):
                     return
                 backs = (_ARIP_BACK[agg],)
                 rtol = 1e-9
+                scale = max((abs(v) for row in x0["data"].values() for v in row if not math.isnan(v)), default=0.0)
                 # observed low periods not completely covered by targets
                 ts = case.get("target_series")
                 tdata = {}
@@ -746,19 +763,19 @@ def _run_roundtrip_case(c, case):
             else:
                 backs = _ROUNDTRIPS[method]
             for back in backs:
-                before = sum(c.violation_counts.values())
+                before = _verdict_counter(c)
                 try:
                     a = ir.aggregate(d, _freq(ir, lo), method=back)
                 except Exception:
                     c.inconc("roundtrip:second-step-raised(judged by the aggregate monitor)")
                     continue
-                if sum(c.violation_counts.values()) != before:
-                    c.inconc("roundtrip:second-step-already-flagged")
+                if _verdict_counter(c) != before:
+                    c.inconc("roundtrip:second-step-already-flagged-or-undecided")
                     continue
                 got = read_series(a)
                 c.event("roundtrip", f"{L[lo]}->{L[hi]}->{L[lo]}:{method}/{back}",
                         key=("rt", lo, hi, method, back, nv, x0["start"][1] if lo != cal.DAILY else 0), nontrivial=len(x0["data"]) >= 2)
-                diffs = mo.maps_equal(x0["data"], got["data"], nv, rtol=0.0 if back != "mean" and method != "arip" else rtol, only=only)
+                diffs = mo.maps_equal(x0["data"], got["data"], nv, rtol=0.0 if back != "mean" and method != "arip" else rtol, only=only, scale=scale)
                 if diffs:
                     o, j, want, have = diffs[0]
                     c.violation(f"roundtrip:{method}/{back}",
@@ -884,6 +901,8 @@ def _gen_disagg_case(c, rng, i, roundtrip=False):
     n = int(rng.integers(1, nmax + 1))
     nv = int(rng.choice([1, 1, 2, 3]))
     v = _apply_nan_pattern(rng, _draw_values(rng, n, nv, str(rng.choice(["int", "float"]))), str(rng.choice(_NAN_PATTERNS)), 1)
+    if method == "flat" and rng.random() < 0.3:
+        method = None       # default method
     return {"kind": "roundtrip" if roundtrip else "disagg", "form": "function" if i % 2 else "method", "freq": src, "start": start,
             "values": v.tolist(), "target": tgt, "method": method}
 
@@ -896,7 +915,7 @@ def _gen_arip_case(c, rng, i, roundtrip=False):
     k = tgt // src
     form = ("rate", "diff", "rate", "diff", "multiplicative", "additive")[(i // 6) % 6]
     aggs = ["sum", "mean", "first", "last", "custom", "sum", "mean", "avg"]
-    agg = aggs[(i // 36) % len(aggs)] if i >= 36 * len(aggs) else aggs[(i // 6) % len(aggs)]
+    agg = aggs[(i // 36) % len(aggs)]
     if agg == "custom":
         agg = [round(float(w), 3) for w in rng.uniform(0.1, 1.0, size=k)]
     tmax = c.scale(240, 480) if rng.random() < 0.9 else c.scale(360, 720)
@@ -927,7 +946,7 @@ def _gen_arip_case(c, rng, i, roundtrip=False):
         z = ao.z_vector(agg if isinstance(agg, str) else tuple(agg), k)
         base = np.nanmean(y, axis=1)
         base = np.where(np.isfinite(base), base, np.nanmean(base))
-        per_high = base / float(np.sum(z)) if True else base
+        per_high = base / float(np.sum(z))
         mode = rng.random()
         if mode < 0.6:       # scattered targets
             for h in rng.choice(T, size=int(rng.integers(1, min(4, T) + 1)), replace=False):
@@ -951,7 +970,6 @@ def _gen_arip_case(c, rng, i, roundtrip=False):
         if np.any(np.isfinite(tv)):
             # the target series starts at the first high period of the first low period; leading NaN rows are trimmed by Series
             lo0 = cal.ordinal_from_label(src, start)
-            first_obs = int(np.flatnonzero(np.any(np.isfinite(y), axis=1))[0])
             h0 = cal.members(src, lo0, tgt)[0]
             case["target_series"] = {"freq": tgt, "start": list(cal.label_from_ordinal(tgt, h0)), "values": np.round(tv, 6).reshape(-1, 1).tolist()}
     return case
@@ -975,18 +993,18 @@ def _directed_cases():
     # --- known finding: DAILY target laid out on blocks of 365 // f days
     D.append({"kind": "disagg", "form": "function", "freq": 12, "start": [2023, 1], "values": [[1.0], [2.0], [3.0]], "target": 365, "method": "flat"})
     D.append({"kind": "disagg", "form": "method", "freq": 12, "start": [2024, 2], "values": [[1.0, 5.0], [2.0, nan]], "target": 365, "method": "last"})
-    D.append({"kind": "disagg", "form": "method", "freq": 1, "start": [2023], "values": [[1.0], [2.0]], "target": 365, "method": "first"})
+    D.append({"kind": "disagg", "form": "method", "freq": 1, "start": [2023, 1], "values": [[1.0], [2.0]], "target": 365, "method": "first"})
     D.append({"kind": "disagg", "form": "method", "freq": 4, "start": [2023, 3], "values": [[1.0], [2.0], [3.0]], "target": 365, "method": "middle"})
     D.append({"kind": "disagg", "form": "method", "freq": 2, "start": [2024, 1], "values": [[1.0], [2.0]], "target": 365, "method": "flat"})
     # daily targets that the block layout happens to get right (single non-leap year)
-    D.append({"kind": "disagg", "form": "method", "freq": 1, "start": [2023], "values": [[7.0]], "target": 365, "method": "flat"})
-    D.append({"kind": "roundtrip", "form": "function", "freq": 1, "start": [2021], "values": [[7.0], [8.0], [9.5]], "target": 365, "method": "flat"})
-    D.append({"kind": "roundtrip", "form": "function", "freq": 1, "start": [2022], "values": [[7.0], [8.0]], "target": 365, "method": "last"})
+    D.append({"kind": "disagg", "form": "method", "freq": 1, "start": [2023, 1], "values": [[7.0]], "target": 365, "method": "flat"})
+    D.append({"kind": "roundtrip", "form": "function", "freq": 1, "start": [2021, 1], "values": [[7.0], [8.0], [9.5]], "target": 365, "method": "flat"})
+    D.append({"kind": "roundtrip", "form": "function", "freq": 1, "start": [2022, 1], "values": [[7.0], [8.0]], "target": 365, "method": "last"})
     D.append({"kind": "disagg", "form": "method", "freq": 12, "start": [2023, 1], "values": [[10.0], [11.0], [12.5]], "target": 365,
               "method": "arip", "model": ["diff", "sum"], "target_series": None})
     D.append({"kind": "disagg", "form": "method", "freq": 12, "start": [2023, 4], "values": [[10.0], [11.0]], "target": 365,
               "method": "arip", "model": ["rate", "mean"], "target_series": None})
-    D.append({"kind": "disagg", "form": "method", "freq": 1, "start": [2022], "values": [[100.0], [108.0]], "target": 365,
+    D.append({"kind": "disagg", "form": "method", "freq": 1, "start": [2022, 1], "values": [[100.0], [108.0]], "target": 365,
               "method": "arip", "model": ["rate", "sum"], "target_series": None})
     # --- known finding: arip multiplier columns are not the aggregation vector
     y5 = [[10.0], [11.0], [12.5], [13.0], [15.0]]
@@ -997,7 +1015,7 @@ def _directed_cases():
         for agg in ("sum", "mean"):
             D.append({"kind": "roundtrip", "form": "function", "freq": 4, "start": [2020, 3], "values": y5, "target": 12,
                       "method": "arip", "model": [form, agg], "target_series": None})
-    D.append({"kind": "disagg", "form": "method", "freq": 1, "start": [2020], "values": [[100.0], [110.0], [125.0]], "target": 4,
+    D.append({"kind": "disagg", "form": "method", "freq": 1, "start": [2020, 1], "values": [[100.0], [110.0], [125.0]], "target": 4,
               "method": "arip", "model": ["rate", "sum"],
               "target_series": {"freq": 4, "start": [2020, 2], "values": [[24.0], [nan], [nan], [nan], [nan], [nan], [30.0]]}})
     # --- month lengths and leap days seen through a counting callable and sums of ones
@@ -1028,9 +1046,33 @@ def _dispatch(c, case):
         c.inconc(f"{kind}:harness:{type(exc).__name__}")
 
 
+def _run_repo_tests(c):
+    """the repository's own aggregation tests with the monitors installed (thorough tier, one shard)"""
+    import os
+    path = os.path.join(rt.REPO, "tests", "series", "aggregate_test.py")
+    if not os.path.exists(path):
+        c.note("repo-tests:not-available")
+        return
+    try:
+        import pytest
+    except Exception:
+        c.note("repo-tests:pytest-not-importable")
+        return
+    before = sum(c.events.values())
+    try:
+        with rt.quiet():
+            rc = pytest.main(["-q", "-x", "-p", "no:cacheprovider", "-W", "ignore", path])
+        c.note(f"repo-tests:pytest-exit-{int(rc)}")
+    except BaseException as exc:
+        c.note(f"repo-tests:harness:{type(exc).__name__}")
+    c.extra["repo_test_monitor_events"] = sum(c.events.values()) - before
+
+
 def shard(c):
     install()
     rng = c.rng
+    if c.tier == "thorough" and c.shard == 0:
+        _run_repo_tests(c)
     # ---- 1. directed cases, dealt round-robin over the shards (every one runs on every seed)
     for i, case in enumerate(_directed_cases()):
         if i % c.nshards == c.shard:
@@ -1039,7 +1081,7 @@ def shard(c):
                 c.sample(case)
 
     # interleave the generators so that every class is present whatever the time budget
-    n_rounds = c.scale(2400, 40000)
+    n_rounds = c.scale(4000, 60000)
     off = int(rng.integers(0, 10000)) + c.shard * 977
     for r in range(n_rounds):
         if c.out_of_time():
